@@ -44,7 +44,7 @@ ASSUMPTIONS = [
 REQUIRED = {"stratum:locality": 20, "stratum:potential": 20, "route:text": 40, "route:api": 40,
             "checked:deriv": 100, "checked:deriv2": 60, "leaf:custom": 10, "leaf:table": 5,
             "mod:product": 10, "mod:pow": 5, "mod:trans": 10, "mod:spline": 5, "at_zero": 10,
-            "stratum:table_slope": 10, "checked:table_slope": 200}
+            "stratum:table_slope": 10, "checked:table_slope": 200, "potential:near_origin": 10}
 
 
 @st.composite
@@ -60,6 +60,10 @@ def _expr_case(draw, depth, kind):
         pd = draw(gen.potdef(depth, [], [], max_ranges=3, leaf_names=gen.REGULAR, allow_spline=False, allow_pow=False))
     else:
         pd = draw(gen.potdef(depth, customs, tables, max_ranges=3, analytic_only=(kind in ("analytic", "table"))))
+    if kind == "table" and not any(b["k"] == "table" for b in model.walk_simple(pd)):
+        leaf = {"ranges": [{"m": None, "s": None, "body": {"k": "table", "name": tables[0]["name"]}}]}
+        pd = {"ranges": [{"m": None, "s": None, "body": {"k": "mod", "m": draw(st.sampled_from(["sum", "product"])),
+                                                         "args": [pd, leaf]}}]}
     if kind == "pycallable":
         lv = draw(st.lists(st.integers(0, 2), min_size=8, max_size=8))
         i = [0]
@@ -123,6 +127,21 @@ def _slope_case(draw):
             "target": draw(st.sampled_from(["LAMMPS", "DL_POLY"]))}
 
 
+@st.composite
+def _potential_origin_case(draw):
+    """Potential(...) around a callable without analytic derivative, a user-chosen coarse differentiation step h
+    and separations closer to the origin than h/2 (the stencil reaches negative arguments)"""
+    a, b, c = draw(gen.fl(0.5, 5.0)), draw(gen.fl(-2.0, 2.0)), draw(gen.fl(0.5, 3.0))
+    smooth = {"name": "smoothf", "params": ["r", "a", "b", "w"], "expr": {
+        "o": "+", "a": {"o": "*", "a": {"o": "var", "n": "a"}, "b": {"o": "call", "f": "exp", "args": [
+            {"o": "neg", "a": {"o": "/", "a": {"o": "var", "n": "r"}, "b": {"o": "var", "n": "w"}}}]}},
+        "b": {"o": "*", "a": {"o": "var", "n": "b"}, "b": {"o": "^", "a": {"o": "var", "n": "r"}, "p": 2}}}}
+    pd = {"ranges": [{"m": ">", "s": -2.0, "body": {"k": "custom", "name": "smoothf", "p": [a, b, c]}}]}
+    h = draw(st.sampled_from([0.01, 0.05, 0.2]))
+    rs = [h * 0.25, h * 0.4, h * 0.49, h * 0.75, draw(gen.fl(0.3, 3.0)), 0.0]
+    return {"kind": "potential", "env": {"custom": [smooth], "table": []}, "pd": pd, "rs": rs, "h": h, "origin": True}
+
+
 def strategy(tier):
     return _expr_case(2, "analytic")
 
@@ -135,6 +154,7 @@ def strata(tier):
         ("expr:table", _expr_case(2, "table"), 2),
         ("expr:regular_at_origin", st.one_of(_expr_case(1, "regular0"), _expr_case(2, "regular0")), 2),
         ("locality", _locality_case(), 2), ("potential", _potential_case(), 2),
+        ("potential_near_origin", _potential_origin_case(), 1),
         ("table_slope", _slope_case(), 1),
     ]
 
@@ -423,7 +443,7 @@ def _check_locality(case):
 
 def _check_potential(case):
     pd, env = case["pd"], case["env"]
-    v, cls = [], ["stratum:potential"]
+    v, cls = [], ["stratum:potential"] + (["potential:near_origin"] if case.get("origin") else [])
     ref = model.Ref(env)
     try:
         f = build_api.Builder(env).potdef(pd)
